@@ -74,9 +74,17 @@ def body(case, stats):
     text = schema.to_prophy()
     try:
         tu = cpph.RawTU(schema, sanitize=True)
-    except (cpph.BuildFailed, pyh.CompileFailed):
-        stats.notes['schema_build_failed'] += 1
+    except pyh.CompileFailed:
+        stats.notes['schema_refused'] += 1
         return
+    except cpph.BuildFailed as ex:
+        # there is no swap to call when the generated sources do not compile
+        msg = cpph.compile_errors(ex)
+        if not msg:
+            stats.notes['build_died_without_compiler_error'] += 1
+            return
+        raise Violation("the raw C++ sources (swap) generated for an accepted schema do not compile: " + msg,
+                        common.case_payload(schema, None, None, {'compiler': msg}))
     try:
         results = tu.swap([(t, rw.encode(t, v, '>')[0]) for t, v in cases])
     finally:
